@@ -3,10 +3,10 @@ from propdefs.common import *
 PROP = {
     "bin": "c04",
     "coq_targets": ["theories/IL/C04Check"],
-    "n": {"quick": 6000, "thorough": 120000},
+    "n": {"quick": 8000, "thorough": 120000},
     "theorems": ["c_bin_spec", "c_bin_spec_noshift", "c_bin_sort_error", "c_ext_spec", "new_big_spec", "c_bin_inr", "c_ext_inr", "no_panic",
                  "eval_den", "build_sort_error", "replace_scalar_subst", "replace_scalar_subst2", "rspec_sound", "c_bin_spec_c"],
-    "rule": "cases drawn from one xoshiro256** stream per (seed,index): 45% Constant operators at boundary-biased widths/values, "
+    "rule": "first: a deterministic sweep of every operator x widths {1,8,32,64,65,128} x all pairs of boundary values {0,1,2^(w-1)-1,2^(w-1),2^w-1,w} (complete whenever n/2 covers it); then cases drawn from one xoshiro256** stream per (seed,index): 45% Constant operators at boundary-biased widths/values, "
             "10% extensions/truncations, 35% expression trees built through the public constructors then eval'd, 10% replace_scalar; "
             "non-trivial = boundary operand (sign bit set, zero divisor, shift) or tree of >= 3 nodes; distinct by canonical case text",
     "trusted_base": [KERNEL, HARNESS_TB, "num-bigint (BigUint/BigInt operators taken to be the mathematical ones on Z)"],
